@@ -3,6 +3,7 @@ package codecprops
 import (
 	"fmt"
 	"runtime/metrics"
+	"sync/atomic"
 	"testing"
 	"time"
 
@@ -13,7 +14,7 @@ import (
 	"verif/harness/stat"
 )
 
-const C05Rule = "Byte strings fed to ReadFrom and ReadBlock of every struct of the registry (request/response packets included) and to tup.UniAttribute.Decode: (random) uniform bytes and head-biased bytes; (mutant) valid encodings with bit flips, truncation, embedded lengths rewritten to -1/0x7fffffff/0x80000000/remaining+-1, type-nibble rewrites, spliced foreign fields; (shape) nesting bombs of StructBegin / LIST-of-LIST / MAP-of-MAP of depth 10^2..10^6 as unknown and known members, giant announced counts with tiny bodies, array lists longer than the array; (pinned hostile-site) per struct the all-members-written encoding of its default value, canonical and with byte vectors in LIST form, with each embedded count in turn set to 2^31-1, 2^28, -1, -2^31, and with every fixed-size array member sent as a well-formed list of 1 or 4 more elements than the array holds; mutants are also derived from LIST-form-byte-vector and widened-integer encodings. Oracle: returns value or error - no panic, terminates (wall <= 5 s + 1 us/byte, re-run twice before it counts), bytes allocated <= 4096*len(input)+64 KiB. Non-trivial = input not rejected at its first head byte: decoding consumed >= 3 fields before the verdict (observed as: strict scanner finds >= 3 complete leading fields), or depth >= 8, or an announced length > remaining. Distinct = distinct (struct, entry point, bytes)."
+const C05Rule = "Byte strings fed to ReadFrom and ReadBlock of every struct of the registry (request/response packets included) and to tup.UniAttribute.Decode: (random) uniform bytes and head-biased bytes; (mutant) valid encodings with bit flips, truncation, embedded lengths rewritten to -1/0x7fffffff/0x80000000/remaining+-1, type-nibble rewrites, spliced foreign fields; (shape) nesting bombs of StructBegin / LIST-of-LIST / MAP-of-MAP of depth 10^2..10^6 as unknown and known members, giant announced counts with tiny bodies, array lists longer than the array; (pinned hostile-site) per struct the all-members-written encoding of its default value, canonical and with byte vectors in LIST form, with each embedded count in turn set to 2^31-1, 2^28, -1, -2^31, and with every fixed-size array member sent as a well-formed list of 1 or 4 more elements than the array holds; mutants are also derived from LIST-form-byte-vector and widened-integer encodings. Oracle: returns value or error - no panic, terminates (wall <= 5 s + 1 us/byte, re-run twice before it counts), bytes allocated <= 4096*len(input)+64 KiB (process-wide counter: an excess counts when it shows in three consecutive runs and again in two runs that each follow an idle window of the process). Non-trivial = input not rejected at its first head byte: decoding consumed >= 3 fields before the verdict (observed as: strict scanner finds >= 3 complete leading fields), or depth >= 8, or an announced length > remaining. Distinct = distinct (struct, entry point, bytes)."
 
 // Seg is one run of a multi-segment hostile input: Head, then Unit repeated Rep times.
 type Seg struct {
@@ -58,6 +59,10 @@ func (c C05Case) input() []byte {
 }
 
 var allocSample = []metrics.Sample{{Name: "/gc/heap/allocs:bytes"}}
+
+// NoisyAllocMeasurements counts inputs whose allocation excess did not show again after an
+// idle window (reported in the evidence as an extra).
+var NoisyAllocMeasurements int64
 
 func heapAllocs() uint64 {
 	metrics.Read(allocSample)
@@ -264,7 +269,36 @@ func (r *Registry) RunC05Case(c C05Case) *stat.Failure {
 			}
 		}
 		if minAlloc > limit {
-			return stat.Failf("unbounded-allocation", "%s (%s, block=%v): decoding %d bytes allocated %d bytes (> %d) in each of three runs; input head % x", c.Struct, c.Kind, c.Block, len(in), minAlloc, limit, clip(in))
+			// The counter is process-wide and three measurements in a row can be polluted by
+			// something else that allocates at that moment (seen once in a thorough run on a
+			// busy machine: 68 KB "for" an empty input that allocates 2 KB). An excess counts
+			// only when it shows again in two measurements that each directly follow an idle
+			// window in which the process allocated (almost) nothing.
+			confirmed := 0
+			for k := 0; k < 8 && confirmed < 2; k++ {
+				q0 := heapAllocs()
+				time.Sleep(3 * time.Millisecond)
+				if idle := heapAllocs() - q0; idle > 8<<10 {
+					time.Sleep(100 * time.Millisecond)
+					continue
+				}
+				a0 := heapAllocs()
+				r.decodeWatched(c.Struct, c.Block, in, 60*time.Second+time.Duration(len(in))*time.Microsecond)
+				alloc := heapAllocs() - a0
+				if alloc <= limit {
+					atomic.AddInt64(&NoisyAllocMeasurements, 1)
+					return nil
+				}
+				if alloc < minAlloc {
+					minAlloc = alloc
+				}
+				confirmed++
+			}
+			if confirmed < 2 {
+				atomic.AddInt64(&NoisyAllocMeasurements, 1)
+				return nil // the process never went quiet: no verdict on this input
+			}
+			return stat.Failf("unbounded-allocation", "%s (%s, block=%v): decoding %d bytes allocated %d bytes (> %d) in each of three runs and in two runs that followed an idle window; input head % x", c.Struct, c.Kind, c.Block, len(in), minAlloc, limit, clip(in))
 		}
 		return nil
 	})
@@ -457,6 +491,11 @@ func (r *Registry) PairBombs() map[string]C05Case {
 
 // RunC05 registers the in-process C05 sub-checks for one registry.
 func (r *Registry) RunC05(t *testing.T, st *stat.Stats, quick, thorough int) {
+	defer func() {
+		if n := atomic.LoadInt64(&NoisyAllocMeasurements); n > 0 {
+			st.Extra("allocation_excess_not_confirmed_after_idle_window", n)
+		}
+	}()
 	if stat.ReplayPath() == "" {
 		bombs := r.Bombs()
 		for name, c := range bombs {
